@@ -338,8 +338,11 @@ func (e *Env) applyDecorationsSinks() {
 	pcField, ok1 := pathCond(c, loop.Body.List, fieldSite)
 	pcFree, ok2 := pathCond(c, loop.Body.List, freeSite)
 	pcAdv, ok3 := pathCond(c, loop.Body.List, advSite)
-	eq1, d1 := equivalentGuards(pcField, isComment+" && "+toField)
-	eq2, d2 := equivalentGuards(pcFree, isComment+" && !("+toField+")")
+	// which of the two sinks a comment goes to is decided by the line-state machine (R-SPACE) for
+	// every decoration list; here: exactly one of them, for every comment, before the advance
+	_ = toField
+	eq1, d1 := equivalentGuards("("+pcField+") || ("+pcFree+")", isComment)
+	eq2, d2 := unsatWith(pcField, pcFree)
 	eq3, d3 := equivalentGuards(pcAdv, isComment)
 	if !(ok1 && ok2 && ok3 && d1 && d2 && d3) {
 		e.Run.Undecided("R-SINK", "applyDecorations: each comment goes to exactly one sink, at the cursor, then the cursor advances by its length", pos, "path conditions outside the propositional subset: "+pcField+" | "+pcFree+" | "+pcAdv)
@@ -347,5 +350,5 @@ func (e *Env) applyDecorationsSinks() {
 	}
 	order := fieldSite.Pos() < advSite.Pos() && freeSite.Pos() < advSite.Pos()
 	e.Run.Check("R-SINK", "applyDecorations: each comment goes to exactly one sink, at the cursor, then the cursor advances by its length", pos, eq1 && eq2 && eq3 && order,
-		fmt.Sprintf("Comment-field sink reached when «%s» (want: comment ∧ firstLine ∧ end ∧ hasCommentField), free list when «%s» (want: comment ∧ ¬that), cursor advance when «%s» (want: every comment), sinks before the advance: %v", pcField, pcFree, pcAdv, order))
+		fmt.Sprintf("Comment-field sink reached when «%s», free list when «%s» (want: together every comment, never both), cursor advance when «%s» (want: every comment), sinks before the advance: %v", pcField, pcFree, pcAdv, order))
 }
